@@ -4,5 +4,5 @@ P=$1; shift
 [ -f "$P" ] || P=/verif/seeded/$P/patch.diff
 rm -rf /tmp/mut-repo; rsync -a --exclude /target --exclude .git /repo/ /tmp/mut-repo/
 patch -p1 -s -d /tmp/mut-repo -i $P || exit 2
-VERIF_REPO=/tmp/mut-repo VERIF_WORK=${VERIF_WORK:-/verif/.work-x} python3 /verif/tools/kx.py -j 6 -t ${T:-1200} "$@" 2>&1 | grep -v "^warning" | grep -E "^error|::verif|wall|FAIL" | cut -c1-260
+VERIF_REPO=/tmp/mut-repo VERIF_WORK=${VERIF_WORK:-/verif/.work-x} python3 $(dirname $0)/kx.py -j 6 -t ${T:-1200} "$@" 2>&1 | grep -v "^warning" | grep -E "^error|::verif|wall|FAIL" | cut -c1-260
 rm -rf /tmp/mut-repo
